@@ -95,7 +95,7 @@ def gamestate_layout(F):
     out = {}
     for k in ("white_king", "white_queen", "black_king", "black_queen"):
         fn = F.fn("chess::gamestate::GameState::%s_castling" % k)
-        nf = sym_fn(fn, F)
+        nf = hir.resolve_consts(sym_fn(fn, F), F)
         bit = None
         for b in range(8):
             v1 = hir.fold(nf, {("field", ("var", "self"), "bitfield"): ("lit", 1 << b)})
@@ -309,6 +309,43 @@ def neighbour_pawn_guard(call, fn, F):
 RIGHTS = ("white_king", "white_queen", "black_king", "black_queen")
 
 
+def array_dims(ty, F):
+    """[outer, ..., inner] lengths of a (nested) array type string; lengths spelled as named consts are resolved through the
+    const-evaluated facts (`[[u64; PIECE_KINDS]; SQUARES]` -> [64, 12]).  None when a length cannot be resolved."""
+    import re
+    dims = []
+    t = ty.strip()
+    while t.startswith("[") and t.endswith("]"):
+        depth = 0
+        cut = None
+        for i, ch in enumerate(t):
+            if ch == "[":
+                depth += 1
+            elif ch == "]":
+                depth -= 1
+            elif ch == ";" and depth == 1:
+                cut = i
+        if cut is None:
+            break
+        n = t[cut + 1:-1].strip()
+        if re.fullmatch(r"\d+", n):
+            dims.append(int(n))
+        else:
+            name = n.split("::")[-1]
+            cands = [p for p in F.consts if p.split("::")[-1] == name]
+            vals = set()
+            for c in cands:
+                try:
+                    vals.add(F.const_int(c))
+                except Exception:
+                    pass
+            if len(vals) != 1:
+                return None
+            dims.append(vals.pop())
+        t = t[1:cut].strip()
+    return dims
+
+
 def gamestate_bit_facts(F):
     """Case-fold the 13 accessors over all 256 byte values.
     Returns list of (instance key, ok, fn path, found) records and the layout dict."""
@@ -334,6 +371,7 @@ def gamestate_bit_facts(F):
             if nf is None:
                 bad = ["no store to bitfield"]
             else:
+                nf = hir.resolve_consts(nf, F)
                 for b in range(256):
                     v = hir.fold(nf, {BF: ("lit", b)})
                     if v[0] != "lit" or (v[1] & 0xFF) != expect(b):
@@ -342,7 +380,7 @@ def gamestate_bit_facts(F):
             recs.append(("setter:%s_%s" % (k, suffix), not bad, path, bad or "bit %d %s for all 256 states" % (bit, "set" if suffix == "true" else "cleared")))
     # en-passant getter / setter
     fn = F.fn("chess::gamestate::GameState::en_passant")
-    nf = sym_fn(fn, F)
+    nf = hir.resolve_consts(sym_fn(fn, F), F)
     bad = [b for b in range(256) if hir.fold(nf, {BF: ("lit", b)}) != ("lit", b & 15)]
     recs.append(("en_passant=low-nibble", not bad, fn["path"], bad[:3] or "b & 15 for all 256 states"))
     fn = F.fn("chess::gamestate::GameState::set_en_passant")
@@ -355,6 +393,7 @@ def gamestate_bit_facts(F):
     if nf is None:
         bad = ["no store to bitfield / unsupported shape"]
     else:
+        nf = hir.resolve_consts(nf, F)
         for b in range(256):
             for v in range(9):
                 r = hir.fold(nf, {BF: ("lit", b), ("var", "value"): ("lit", v)})
@@ -366,7 +405,7 @@ def gamestate_bit_facts(F):
     recs.append(("set_en_passant-preserves-rights", not bad, fn["path"], bad or "(b & 0xF0) | v for all 256 states x v in 0..=8"))
     # default state
     fn = F.fn("<chess::gamestate::GameState as std::default::Default>::default")
-    nf = sym_fn(fn, F)
+    nf = hir.resolve_consts(sym_fn(fn, F), F)
     ok = nf[0] == "struct" and dict(nf[2]).get("bitfield") == ("lit", 8)
     recs.append(("default=no-rights,no-en-passant", ok, fn["path"], hir.fmt(nf, 80)))
     return recs, layout
@@ -471,4 +510,86 @@ def decode_fmt_template(raw):
             continue
         out += raw[i + 1:i + 1 + b].decode("utf-8", "replace")
         i += 1 + b
+    return out
+
+
+# ---------------------------------------------------------------------------
+# semantic summary of Game::set_position (who reads it: C03.S1, C04.K5, C16.E1)
+
+SLOT_OF = {"board": "board", "past_scores": "past_scores", "past_hashes": "past_hashes"}
+
+
+def _slot_array(t):
+    """Which Game array a reference/place normal form points into, or None."""
+    s = hir.fmt(t, 600)
+    hits = [name for name in SLOT_OF if ("self.%s" % name) in s]
+    return hits[0] if len(hits) == 1 else None
+
+
+def set_position_summary(F):
+    """Symbolic execution of set_position (loop-free), then case folding over the new content:
+    returns {"None": {...}, "Some": {...}} with the final normal forms of hash, score and of the three slots,
+    plus "old": {array: normal form of the slot before the call}, "index": set of index texts.  Raises hir.Unsupported."""
+    fn = F.fn("chess::Game::set_position")
+    params = [p["pat"].get("name") for p in fn["hir"]["params"]]
+    if len(params) != 3:
+        raise hir.Unsupported("set_position no longer takes (self, position, content)")
+    pos_name, new_name = params[1], params[2]
+    env = hir.Env(fn["hir"], F)
+    sym = hir.Sym(env, F)
+    ex = hir.Exec(fn["hir"], F)
+    ex.run()
+    # slot locals: locals whose *initial* definition is a reference into one of the arrays
+    slot_final, slot_old = {}, {}
+    for n, _ in hir.walk(fn["hir"]["body"]):
+        if n.get("k") == "SLet":
+            for pb in _pbinds(n["pat"]):
+                # the Env definition (component of a tuple-let included)
+                init = env.defs.get(pb["id"]) or env.opaque.get(pb["id"])
+                if init is None:
+                    continue
+                t0 = sym(init)
+                arr = _slot_array(t0)
+                if arr and pb["id"] in ex.store and any(w in hir.fmt(t0, 400) for w in ("get_unchecked_mut", "get_mut", "index_mut", "IndexMut")):
+                    slot_final[arr] = ex.store[pb["id"]]
+                    slot_old[arr] = t0
+    for arr in SLOT_OF:
+        k = ("fieldstore", "self", arr + "[]")
+        if k in ex.store and arr not in slot_final:
+            slot_final[arr] = ex.store[k]
+            slot_old[arr] = ("index", ("field", ("var", "self"), arr), ("var", "?"))
+    out = {"old": slot_old, "params": (pos_name, new_name)}
+    H = ex.store.get(("fieldstore", "self", "hash"))
+    S = ex.store.get(("fieldstore", "self", "score"))
+    P = ("var", "P")
+    D = discr_map(F)
+    helpers = hir.table_helpers(F)
+    for case, val in (("None", ("variant", "std::prelude::v1::None")), ("Some", ("ctor", "std::prelude::v1::Some", (P,)))):
+        a = {("var", new_name): val}
+        f = lambda t: hir.fold(t, a, D, helpers) if t is not None else None
+        out[case] = {"hash": f(H), "score": f(S), "board": f(slot_final.get("board")), "slot_s": f(slot_final.get("past_scores")),
+                     "slot_h": f(slot_final.get("past_hashes"))}
+    idxs = set()
+    for n, anc in hir.walk(fn["hir"]["body"]):
+        if n.get("k") == "MethodCall" and n["name"] in ("get_unchecked_mut", "get_mut", "index_mut", "get_unchecked"):
+            idxs.add(hir.fmt(sym(n["args"][0]), 80))
+        if n.get("k") == "Index":
+            idxs.add(hir.fmt(sym(n["i"]), 80))
+    out["index"] = idxs
+    return out
+
+
+def _pbinds(pat):
+    out = []
+    if not isinstance(pat, dict):
+        return out
+    if pat.get("k") == "PBind":
+        out.append(pat)
+    for key in ("pats",):
+        for s_ in pat.get(key) or ():
+            out += _pbinds(s_)
+    if isinstance(pat.get("pat"), dict):
+        out += _pbinds(pat["pat"])
+    if isinstance(pat.get("sub"), dict):
+        out += _pbinds(pat["sub"])
     return out
